@@ -605,7 +605,10 @@ def _hyp():
                    st.sampled_from(["SECONDLY", "MINUTELY", "HOURLY", "DAILY", "WEEKLY", "MONTHLY", "YEARLY"]), st.integers(0, 2))
     mo = st.builds(lambda m, k: {"t": "month", "v": [m, str(m), f"{m}L"][k]}, st.integers(1, 13), st.integers(0, 2))
     return st.one_of(td, td, ints, floats, floats, geo, dts, tms, per, per, st.booleans().map(lambda b: {"t": "bool", "v": b}),
-                     text.map(lambda s: {"t": "binary", "v": s}), st.binary(max_size=80).map(lambda b: {"t": "binary", "hex": b.hex()}), uri.map(lambda s: {"t": "uri", "v": s}),
+                     text.map(lambda s: {"t": "binary", "v": s}), st.binary(max_size=80).map(lambda b: {"t": "binary", "hex": b.hex()}),
+                     # payloads that begin like a text file: UTF-8/UTF-16/UTF-32 byte order marks, then text
+                     st.tuples(st.sampled_from([b"\xef\xbb\xbf", b"\xff\xfe", b"\xfe\xff", b"\xef\xbb", b"\x00", b"\xef\xbb\xbf\xef\xbb\xbf"]),
+                               st.sampled_from([b"", b"BEGIN:VCARD\r\nEND:VCARD", b"a,b;c", "\u00e9t\u00e9".encode("utf-8")])).map(lambda ab: {"t": "binary", "hex": (ab[0] + ab[1]).hex()}), uri.map(lambda s: {"t": "uri", "v": s}),
                      uri.map(lambda s: {"t": "caladdr", "v": s}), wd, fr, mo, grammar_texts(), grammar_texts(), grammar_texts())
 
 
